@@ -65,10 +65,16 @@ public:
   //
   // equality operator
   //
+  // The map is the key of the metric series table, so the comparison has to be an
+  // equivalence relation: a NaN attribute value is the same value as a NaN (operator== of
+  // double would make a map holding a NaN different from itself).
   bool operator==(const FilteredOrderedAttributeMap &other) const
   {
-    return hash_ == other.hash_ && static_cast<const OrderedAttributeMap &>(*this) ==
-                                       static_cast<const OrderedAttributeMap &>(other);
+    return hash_ == other.hash_ && size() == other.size() &&
+           std::equal(begin(), end(), other.begin(),
+                      [](const value_type &lhs, const value_type &rhs) {
+                        return lhs.first == rhs.first && SameValue(lhs.second, rhs.second);
+                      });
   }
 
   size_t GetHash() const { return hash_; }
@@ -76,6 +82,31 @@ public:
   void UpdateHash() { hash_ = GetHashForAttributeMap(*this); }
 
 private:
+  static bool SameDouble(double lhs, double rhs) noexcept
+  {
+    return lhs == rhs || (lhs != lhs && rhs != rhs);
+  }
+
+  static bool SameValue(const opentelemetry::sdk::common::OwnedAttributeValue &lhs,
+                        const opentelemetry::sdk::common::OwnedAttributeValue &rhs)
+  {
+    if (lhs.index() != rhs.index())
+    {
+      return false;
+    }
+    if (nostd::holds_alternative<double>(lhs))
+    {
+      return SameDouble(nostd::get<double>(lhs), nostd::get<double>(rhs));
+    }
+    if (nostd::holds_alternative<std::vector<double>>(lhs))
+    {
+      const auto &l = nostd::get<std::vector<double>>(lhs);
+      const auto &r = nostd::get<std::vector<double>>(rhs);
+      return l.size() == r.size() && std::equal(l.begin(), l.end(), r.begin(), SameDouble);
+    }
+    return lhs == rhs;
+  }
+
   size_t hash_ = (std::numeric_limits<size_t>::max)();
 };
 
